@@ -353,6 +353,67 @@ impl Property for C03 {
                 fails.push((serde_json::to_value(&cases[i]).unwrap(), f));
             }
         }
+        // a char.def whose LENGTH column holds the largest value its type admits: the candidate loop of the MeCab
+        // provider must not run (and allocate) in proportion to that number. Run in a child process under an
+        // address-space limit of 6 GiB with a two-minute cap, so that a runaway allocation cannot hurt this process.
+        {
+            use std::os::unix::process::CommandExt;
+            let shipped = read_src("char.def", &FileSrc::Shipped);
+            for (label, len) in [("65535", 65_535u64), ("4294967295", 4_294_967_295u64)] {
+                let cd: String = shipped
+                    .lines()
+                    .map(|l| {
+                        let c: Vec<&str> = l.split_whitespace().collect();
+                        if c.len() == 4 && (c[0] == "KANJI" || c[0] == "KATAKANA") && c[1..].iter().all(|x| x.chars().all(|ch| ch.is_ascii_digit())) {
+                            format!("{} {} {} {}", c[0], c[1], c[2], len)
+                        } else {
+                            l.to_string()
+                        }
+                    })
+                    .collect::<Vec<_>>()
+                    .join("\n");
+                let (dic, mut cfg) = fallback_world();
+                cfg.chardef = FileSrc::Text(cd.clone());
+                cfg.oov[0] = OovPlugin::Mecab { chardef: FileSrc::Text(cd), unkdef: FileSrc::Text(small_unk_def(&FileSrc::Shipped, 2, 2)), user_pos: Some(true) };
+                let case = Case { dic, cfg, texts: vec![vec![Piece::Raw("漢".into())], vec![Piece::Raw("1アイ".into())]], subset: 0xffff };
+                let file = ctx.dir.join(format!("oov-length-{}.json", label));
+                let _ = std::fs::create_dir_all(&ctx.dir);
+                write_json(&file, &json!({"case": serde_json::to_value(&case).unwrap()}));
+                let exe = std::env::current_exe().expect("current exe");
+                let mut cmd = std::process::Command::new(exe);
+                cmd.args(["C03", "quick", "--replay", file.to_str().unwrap()]).stdout(std::process::Stdio::null()).stderr(std::process::Stdio::null());
+                unsafe {
+                    cmd.pre_exec(|| {
+                        let lim = libc::rlimit { rlim_cur: 6 << 30, rlim_max: 6 << 30 };
+                        libc::setrlimit(libc::RLIMIT_AS, &lim);
+                        Ok(())
+                    });
+                }
+                let verdict = match cmd.spawn() {
+                    Err(e) => Some(format!("cannot start the child: {}", e)),
+                    Ok(mut child) => {
+                        let t0 = std::time::Instant::now();
+                        loop {
+                            match child.try_wait() {
+                                Ok(Some(st)) if st.code() == Some(0) => break None,
+                                Ok(Some(st)) => break Some(format!("the analysis of one character did not return: the child ended with {:?} (address space limited to 6 GiB)", st)),
+                                Ok(None) if t0.elapsed().as_secs() > 120 => {
+                                    let _ = child.kill();
+                                    let _ = child.wait();
+                                    break Some("the analysis of one character ran for more than 120 s".to_string());
+                                }
+                                Ok(None) => std::thread::sleep(std::time::Duration::from_millis(50)),
+                                Err(e) => break Some(format!("wait: {}", e)),
+                            }
+                        }
+                    }
+                };
+                stats.record(&format!("oov-length:{}", label), verdict.is_none(), Some("huge LENGTH column"));
+                if let Some(v) = verdict {
+                    fails.push((serde_json::to_value(&case).unwrap(), Failure { clause: "oov-length-runaway".into(), detail: format!("char.def LENGTH = {}: {}", label, v) }));
+                }
+            }
+        }
         stats.extra.insert("length_family_cases".into(), json!(fam.len()));
         stats.extra.insert("length_family_sample".into(), json!(fam.iter().take(3).map(|x| x.0.clone()).collect::<Vec<_>>()));
         fails
